@@ -31,7 +31,62 @@ def load_contracts():
     return C.REGISTRY
 
 
-def verify(functions: list[str], budgets=(8, 30, 60), verbose=False):
+def _cache_key():
+    import hashlib
+    from pathlib import Path
+    from .. import build as B
+    h = hashlib.sha256()
+    h.update(B.tree_hash(B.REPO, 'cxx').encode())
+    root = Path(__file__).resolve().parent.parent
+    for p in sorted(list((root / 'cxx').glob('*.py')) + list((root / 'contracts').glob('*.py'))):
+        h.update(p.read_bytes())
+    return h.hexdigest()[:16]
+
+
+def verify(functions: list[str], budgets=(8, 30, 60), verbose=False, use_cache=True):
+    """Obligations of the given functions.  Results are cached per function, keyed by the content hash of the C++
+    tree and of the engine + contracts (so every property check of one run shares the work)."""
+    import json
+    from pathlib import Path
+    cache_dir = Path(__file__).resolve().parent.parent.parent / '.cache'
+    cache_dir.mkdir(exist_ok=True)
+    key = _cache_key()
+    cached, todo = {}, []
+    for q in functions:
+        cf = cache_dir / f'vc-{key}-{q.replace(":", "_").replace("<", "_").replace(">", "_")}.json'
+        if use_cache and cf.exists():
+            try:
+                cached[q] = [Obligation(**o) for o in json.loads(cf.read_text())]
+                continue
+            except Exception:
+                pass
+        todo.append(q)
+    obs_new, info = _verify(todo, budgets, verbose) if todo else ([], None)
+    if todo:
+        for old in cache_dir.glob('vc-*.json'):
+            if not old.name.startswith(f'vc-{key}-'):
+                old.unlink()
+        byfn = {}
+        for o in obs_new:
+            byfn.setdefault(o.function.split('<')[0], []).append(o)
+        for q in todo:
+            cf = cache_dir / f'vc-{key}-{q.replace(":", "_").replace("<", "_").replace(">", "_")}.json'
+            if all(o.status in ('discharged', 'failed') for o in byfn.get(q, [])) and byfn.get(q):
+                cf.write_text(json.dumps([o.to_json() for o in byfn[q]]))
+    obs = []
+    for q in functions:
+        if q in cached:
+            obs += cached[q]
+    obs += obs_new
+    info = info or {'drops': DROPS, 'vc_generation_s': 0.0}
+    info['functions'] = list(functions)
+    info['classes'] = {c: sum(1 for o in obs if o.cls == c) for c in sorted({o.cls for o in obs})}
+    info['backends'] = {b: sum(1 for o in obs if o.backend == b) for b in sorted({o.backend for o in obs})}
+    info['from_cache'] = sorted(cached)
+    return obs, info
+
+
+def _verify(functions: list[str], budgets=(8, 30, 60), verbose=False):
     prog = load_program()
     contracts = load_contracts()
     all_vcs = []
@@ -90,11 +145,11 @@ def verify(functions: list[str], budgets=(8, 30, 60), verbose=False):
 
 
 if __name__ == '__main__':
-    fns = sys.argv[1:]
+    fns = [a for a in sys.argv[1:] if not a.startswith('--')]
     if not fns:
         fns = sorted(load_contracts())
     t = time.time()
-    obs, info = verify(fns, verbose=True)
+    obs, info = verify(fns, verbose=True, use_cache='--cache' in sys.argv)
     for o in obs:
         flag = {'discharged': 'ok  ', 'failed': 'FAIL', 'unknown': '??? ', 'error': 'ERR '}[o.status]
         print(f'{flag} {o.id}  [{o.backend} {o.time_s}s] {o.source} {o.detail[:300] if o.status != "discharged" else ""}')
